@@ -31,6 +31,9 @@ type Sink struct {
 	Ev     []Event
 	n      atomic.Int32
 	Params []int
+	// Interp is set for the interpreted execution (the native twin must not
+	// really call os.Exit or log.Fatal).
+	Interp bool
 	// Stamp, if set, is called for every event before it is stored (the
 	// simulator stamps task and sequence number, and may park the caller).
 	Stamp func(e *Event)
@@ -102,6 +105,14 @@ func Tick(id int) { put(Event{Kind: KTick, Tag: id}) }
 //go:norace
 func TickR(id int) int { put(Event{Kind: KTick, Tag: id}); return id }
 
+// Interpreted reports whether the caller runs under the interpreter.
+//
+//go:norace
+func Interpreted() bool {
+	s := Cur.Load()
+	return s != nil && s.Interp
+}
+
 // Twice is a host function with a result.
 //
 //go:norace
@@ -152,6 +163,7 @@ var Symbols = map[string]map[string]reflect.Value{
 		"TickR":   reflect.ValueOf(TickR),
 		"Param":   reflect.ValueOf(Param),
 		"Twice":   reflect.ValueOf(Twice),
+		"Interpreted": reflect.ValueOf(Interpreted),
 		"NParams": reflect.ValueOf(NParams),
 		"Boom":    reflect.ValueOf(Boom),
 		"BoomStr": reflect.ValueOf(BoomStr),
